@@ -458,7 +458,7 @@ async fn call_subject(state: &State, r: &ReqLit) -> Out {
             }
         }
     };
-    match tokio::time::timeout(Duration::from_secs(20), catch(fut)).await {
+    match tokio::time::timeout(Duration::from_secs(60), catch(fut)).await {
         Err(_) => Out::Hang,
         Ok(Err(p)) => Out::Panic(p),
         Ok(Ok(o)) => o,
@@ -635,7 +635,7 @@ async fn judge_inproc(state: &State, cfg: &Cfg, r: &ReqLit, sink: &Sink<'_>, tra
             return out;
         }
         Out::Hang => {
-            sink.viol(format!("hang.{}", path_class(&path)), format!("no response within 20 s [{cfgs}] {}", r.to_json()), rj());
+            sink.viol(format!("hang.{}", path_class(&path)), format!("no response within 60 s [{cfgs}] {}", r.to_json()), rj());
             return out;
         }
         _ => {}
@@ -1076,7 +1076,7 @@ async fn wire_call(state: &State, r: &ReqLit) -> WireOut {
             f.extend(b"verif".iter().enumerate().map(|(i, b)| b ^ mask[i % 4]));
             let _ = c.write_all(&f).await;
             let want = [0x8Au8, 0x05, b'v', b'e', b'r', b'i', b'f'];
-            let got = tokio::time::timeout(Duration::from_secs(5), async {
+            let got = tokio::time::timeout(Duration::from_secs(20), async {
                 while body.len() < want.len() {
                     match c.read(&mut tmp).await {
                         Ok(0) | Err(_) => break,
@@ -1099,7 +1099,7 @@ async fn wire_call(state: &State, r: &ReqLit) -> WireOut {
         server.abort();
         WireOut { out: Out::Resp { status, headers, body }, tunnel_alive }
     };
-    match tokio::time::timeout(Duration::from_secs(20), catch(fut)).await {
+    match tokio::time::timeout(Duration::from_secs(60), catch(fut)).await {
         Err(_) => WireOut { out: Out::Hang, tunnel_alive: None },
         Ok(Err(p)) => WireOut { out: Out::Panic(p), tunnel_alive: None },
         Ok(Ok(o)) => o,
